@@ -54,12 +54,22 @@ def handle (op : String) (j : Json) : Option Json :=
     let layers := getB j "layers"
     let hs := (getArr j "helpers").map getHelper
     let procs := hs.zipIdx.map fun (h, i) => procOf i h
+    let listedOf0 := fun (us : List Use) =>
+      let pairs := (us.map fun u => (u.layer, u.pid)).eraseDups
+      let sorted := sortBy (fun a b => bytesLt (a.1 ++ [0, a.2]) (b.1 ++ [0, b.2])) pairs
+      Json.arr (sorted.map fun (l, p) => Json.arr #[jb l, Json.num p]).toArray
     let model := match findLayerUsers layers procs with
-      | .ok us => obj [("cls", "ok"), ("uses", Json.arr ((canon us).map jUse).toArray)]
+      | .ok us => obj [("cls", "ok"), ("uses", Json.arr ((canon us).map jUse).toArray), ("listed", listedOf0 us)]
       | .error _ => obj [("cls", "err")]
     let impl := getObj j "impl"
     let expected := Json.arr ((canon (specUses layers hs)).map jUse).toArray
-    let holds := getStr impl "cls" == "ok" && getObj impl "uses" == expected
+    -- `status <layer>` lists every process that uses the layer exactly once
+    let listedOf := fun (us : List Use) =>
+      let pairs := (us.map fun u => (u.layer, u.pid)).eraseDups
+      let sorted := sortBy (fun a b => bytesLt (a.1 ++ [0, a.2]) (b.1 ++ [0, b.2])) pairs
+      Json.arr (sorted.map fun (l, p) => Json.arr #[jb l, Json.num p]).toArray
+    let expectedListed := listedOf (specUses layers hs)
+    let holds := getStr impl "cls" == "ok" && getObj impl "uses" == expected && getObj impl "listed" == expectedListed
     -- recorded finding: the kernel shows an unlinked directory as "<path> (deleted)"; a process
     -- left in one is attributed to whatever layer now carries the name (region: a helper whose
     -- directory is gone, and the implementation reports exactly what that string yields)
